@@ -819,8 +819,9 @@ func (r *run) earlyOwner() *callerState {
 // doEarly lets the receive loop go on with the hand-over BEFORE the owner listens. The response channel is
 // unbuffered and the owner is the only reader: the loop has to wait in its send (no arrival within the probe
 // time-out) until the owner has returned from sendPacket and receives; then both go on exactly as if the owner
-// had been first, and that is how the two actions are recorded (step owner, step rx): for the model the
-// rendezvous is one step which is enabled when the owner listens. A loop which comes back without the owner
+// had been first, and that is how the two actions are recorded (step owner, step rx) after the action `commit rx`:
+// for Client/Live.v the rendezvous is one step which is enabled when the owner listens; Client/Rendezvous.v is the
+// finer system with the commit, and the model driver runs both (C09_early_handover_refines). A loop which comes back without the owner
 // has given the result to nobody (or to somebody else): the call can never return it.
 func (r *run) doEarly() {
 	o := r.earlyOwner()
@@ -836,6 +837,7 @@ func (r *run) doEarly() {
 		r.aborted = true
 		return
 	}
+	r.record("commit rx", "committed")
 	// the owner returns from sendPacket (the send lock is released) and receives
 	r.relAt[o.name] = hnow()
 	r.sc.Release(o.name)
